@@ -349,6 +349,10 @@ def check(ctx):
         if not any(isinstance(x, ast.Assign) and ast.unparse(x.targets[0]) == 'self.parts' for x in ast.walk(init)):
             o.fail(P, 'Batch.__init__', 'self.parts = parts', 'a batch does not keep the given parts', file=b.mod.path, line=init.lineno)
     obs.append(o8)
+    obs.append(ctx.shared('c05', 'C05.2', 'C17.9', 'a batcher downstream of a buffer unpacks an accepted batch in place, so the buffer must size a stored batch before handing it over '
+                          '(counted afterwards, the level drifts upwards and the buffer ends up refusing every batch)'))
+    obs.append(ctx.shared('c08', 'C08.2', 'C17.10', 'a batch forwards history edits to its parts, whose histories are longer than its own: a refused hand-over may only take back '
+                          'the last entry (index -1), any remembered position removes the wrong entry of the contained parts'))
     return obs
 
 
